@@ -16,7 +16,7 @@ META = dict(
     technique="exhaustive enumeration of every single-pixel pattern / every Fourier mode on small grids x layouts x units; closed-form reference",
     text="For 4 pattern shapes (odd/even mixes), 2 samplings, both layouts and both units, the centre of mass of every single-pixel pattern (two "
          "intensities) and of seeded patterns, for three ensemble shapes and lazy/eager, is compared with the intensity-weighted mean frequency; "
-         "the gradient of every non-constant band-limited Fourier mode of two grids is integrated and compared with the generating field.",
+         "the gradient of every non-constant band-limited Fourier mode of two grids is integrated and compared with the generating field. Lazy gradient images are cut into 1 or 2 dask blocks per image axis in every way and into 3 blocks along y.",
     note="Bound: patterns <= 8x7, grids <= 9x8. Tolerance 1e-5 relative (float32). Normalisation by the total intensity is part of the statement "
          "('intensity-weighted mean').",
 )
